@@ -66,6 +66,68 @@ def check_tables_not_mutated(ctx, rule):
     ctx.floor(rule, n, 5, "table-taking functions")
 
 
+def initial_value_on_path(ctx, rule_c, rule_d, it, p, q, f, cname, tag, present, absent):
+    """m_i == m_scaled_func(p_i) through a raising interpolator over (pressure, m-scaled); with a user alpha the
+    m-scaled column is pseudopressure * interp(pressure, 1/pseudopressure)(p_i).  Returns the m-scaled store events."""
+    mi = [e for e in p.events if e.kind == "store_attr" and e.data["attr"] == "m_i"]
+    okm = False
+    found = ""
+    if len(mi) == 1:
+        v = it.to_nf(mi[0].data["value"])
+        found = nf.show(v, 160)
+        at = it.single_atom(v)
+        okm = at is not None and at[0] == "fn" and at[1].startswith("call:scipy.interpolate.interp1d") and nf.unkey(at[2][-1]) == nf.sym("p_i")
+        if okm:
+            names = at[1][at[1].index("{") + 1 : at[1].index("}")].split(",")
+            argmap = dict(zip(names, [nf.unkey(a) for a in at[2][: len(names)]]))
+            okm = set(names) <= {"x", "y", "kind"} and argmap.get("x") == col("pressure")
+            # the interpolated ordinate is the stored m-scaled column
+            ms = [e for e in p.events if e.kind == "store_sub" and isinstance(e.data["index"], StrV) and e.data["index"].s == "m-scaled"]
+            okm = okm and len(ms) == 1 and argmap.get("y") == it.to_nf(ms[0].data["value"])
+    ctx.check(
+        okm, rule_c, q + ":m_i" + tag, f.where(),
+        "m_i is the scaled pseudopressure interpolated over the pressure column at p_i by a raising interpolator: m_i == m_scaled_func(p_i)",
+        signature="m_i", found=found,
+    )
+    # m_scaled_func is that same interpolator
+    msf = [e for e in p.events if e.kind == "store_attr" and e.data["attr"] == "m_scaled_func"]
+    okf = len(msf) == 1 and isinstance(msf[0].data["value"], ExtObj) and len(mi) == 1 and it.to_nf(mi[0].data["value"]) == nf.fn("call:" + it.single_atom(it.to_nf(msf[0].data["value"]))[1], *[nf.unkey(a) for a in it.single_atom(it.to_nf(msf[0].data["value"]))[2]], nf.sym("p_i"))
+    ctx.check(okf, rule_d, q + ":m_scaled_func" + tag, f.where(), "self.m_scaled_func is the interpolator (pressure -> m-scaled) that produced m_i", signature="m_scaled_func")
+    # ---- C09-d the transform
+    ms = [e for e in p.events if e.kind == "store_sub" and isinstance(e.data["index"], StrV) and e.data["index"].s == "m-scaled"]
+    if len(ms) == 1:
+        val = it.to_nf(ms[0].data["value"])
+        where = f"{f.file}:{ms[0].line}"
+        if cname == "FlowPropertiesSimple":
+            ctx.identity(rule_d, q + ":m-scaled" + tag, where, "for the simple liquid the scaled pseudopressure is the pressure itself", val, col("pressure"))
+        elif "alpha" in present or ("alpha" not in absent and False):
+            ratio = nf.div(val, col("pseudopressure"))
+            at = it.single_atom(ratio)
+            good = False
+            if at is not None and at[0] == "fn" and at[1].startswith("call:scipy.interpolate.interp1d"):
+                names = at[1][at[1].index("{") + 1 : at[1].index("}")].split(",")
+                argmap = dict(zip(names, [nf.unkey(a) for a in at[2][: len(names)]]))
+                good = set(names) == {"x", "y"} and argmap["x"] == col("pressure") and nf.equal(argmap["y"], nf.div(nf.ONE, col("pseudopressure"))) and nf.unkey(at[2][-1]) == nf.sym("p_i")
+            ctx.check(good, rule_d, q + ":m-scaled (user alpha)" + tag, where, "with a user alpha, m-scaled == pseudopressure * interp(pressure, 1/pseudopressure)(p_i): exactly 1 at table nodes", signature="m-scaled user-alpha", ratio=nf.show(ratio, 200))
+    return ms
+
+
+def check_initial_value(ctx, rule_c, rule_d, classes=("FlowProperties", "FlowPropertiesSimple")):
+    """the initial-value obligations of the wrapper constructors, for properties that rely on m_i / m-scaled"""
+    n = 0
+    for cname in classes:
+        q = FP + cname + ".__init__"
+        f = ctx.P.func(q)
+        ctx.touch(q)
+        it = interp(ctx)
+        for p in [p for p in it.run_function(q) if feasible(p.decisions) and p.outcome == "return"]:
+            present, absent = present_from(p.decisions)
+            tag = " [" + ", ".join(sorted(present)) + ("; no " + ",".join(sorted(absent)) if absent else "") + "]"
+            initial_value_on_path(ctx, rule_c, rule_d, it, p, q, f, cname, tag, present, absent)
+            n += 1
+    ctx.floor(rule_c, n, 2, "constructor partitions")
+
+
 def check(ctx):
     P = ctx.P
     check_tables_not_mutated(ctx, "C09-a")
@@ -112,46 +174,7 @@ def check(ctx):
                     "an interpolator evaluated at the initial pressure raises ValueError when p_i is outside the table (no bounds_error=False / fill_value)",
                     signature="lenient lookup at p_i " + ",".join(bad), options=sorted(o.args),
                 )
-            mi = [e for e in p.events if e.kind == "store_attr" and e.data["attr"] == "m_i"]
-            okm = False
-            found = ""
-            if len(mi) == 1:
-                v = it.to_nf(mi[0].data["value"])
-                found = nf.show(v, 160)
-                at = it.single_atom(v)
-                okm = at is not None and at[0] == "fn" and at[1].startswith("call:scipy.interpolate.interp1d") and nf.unkey(at[2][-1]) == nf.sym("p_i")
-                if okm:
-                    names = at[1][at[1].index("{") + 1 : at[1].index("}")].split(",")
-                    argmap = dict(zip(names, [nf.unkey(a) for a in at[2][: len(names)]]))
-                    okm = set(names) <= {"x", "y", "kind"} and argmap.get("x") == col("pressure")
-                    # the interpolated ordinate is the stored m-scaled column
-                    ms = [e for e in p.events if e.kind == "store_sub" and isinstance(e.data["index"], StrV) and e.data["index"].s == "m-scaled"]
-                    okm = okm and len(ms) == 1 and argmap.get("y") == it.to_nf(ms[0].data["value"])
-            ctx.check(
-                okm, "C09-c", q + ":m_i" + tag, f.where(),
-                "m_i is the scaled pseudopressure interpolated over the pressure column at p_i by a raising interpolator: m_i == m_scaled_func(p_i)",
-                signature="m_i", found=found,
-            )
-            # m_scaled_func is that same interpolator
-            msf = [e for e in p.events if e.kind == "store_attr" and e.data["attr"] == "m_scaled_func"]
-            okf = len(msf) == 1 and isinstance(msf[0].data["value"], ExtObj) and len(mi) == 1 and it.to_nf(mi[0].data["value"]) == nf.fn("call:" + it.single_atom(it.to_nf(msf[0].data["value"]))[1], *[nf.unkey(a) for a in it.single_atom(it.to_nf(msf[0].data["value"]))[2]], nf.sym("p_i"))
-            ctx.check(okf, "C09-d", q + ":m_scaled_func" + tag, f.where(), "self.m_scaled_func is the interpolator (pressure -> m-scaled) that produced m_i", signature="m_scaled_func")
-            # ---- C09-d the transform
-            ms = [e for e in p.events if e.kind == "store_sub" and isinstance(e.data["index"], StrV) and e.data["index"].s == "m-scaled"]
-            if len(ms) == 1:
-                val = it.to_nf(ms[0].data["value"])
-                where = f"{f.file}:{ms[0].line}"
-                if cname == "FlowPropertiesSimple":
-                    ctx.identity("C09-d", q + ":m-scaled" + tag, where, "for the simple liquid the scaled pseudopressure is the pressure itself", val, col("pressure"))
-                elif "alpha" in present or ("alpha" not in absent and False):
-                    ratio = nf.div(val, col("pseudopressure"))
-                    at = it.single_atom(ratio)
-                    good = False
-                    if at is not None and at[0] == "fn" and at[1].startswith("call:scipy.interpolate.interp1d"):
-                        names = at[1][at[1].index("{") + 1 : at[1].index("}")].split(",")
-                        argmap = dict(zip(names, [nf.unkey(a) for a in at[2][: len(names)]]))
-                        good = set(names) == {"x", "y"} and argmap["x"] == col("pressure") and nf.equal(argmap["y"], nf.div(nf.ONE, col("pseudopressure"))) and nf.unkey(at[2][-1]) == nf.sym("p_i")
-                    ctx.check(good, "C09-d", q + ":m-scaled (user alpha)" + tag, where, "with a user alpha, m-scaled == pseudopressure * interp(pressure, 1/pseudopressure)(p_i): exactly 1 at table nodes", signature="m-scaled user-alpha", ratio=nf.show(ratio, 200))
+            ms = initial_value_on_path(ctx, "C09-c", "C09-d", it, p, q, f, cname, tag, present, absent)
             # ---- C09-e alpha at nodes
             for e in [e for e in p.events if e.kind == "store_sub" and isinstance(e.data["index"], StrV) and e.data["index"].s == "alpha"]:
                 ctx.identity("C09-e", q + ":alpha column" + tag, f"{f.file}:{e.line}", "node diffusivity == 1 / (compressibility * viscosity)", it.to_nf(e.data["value"]), nf.div(nf.ONE, nf.mul(col("compressibility"), col("viscosity"))))
